@@ -83,7 +83,7 @@ fn base_scene(bw: u32, bh: u32, focal: f32, near: f32, far: f32, tris: &[[[f32; 
         let m = perspective(focal, aspect, near..far);
         (Door::Render, tris.iter().map(|t| t.map(|v| xs(m.apply(&pt3(v[0], v[1], v[2])).0))).collect())
     };
-    Scene { bw, bh, vp: [0, 0, bw, bh], tris: ts, attrs, door, target: TargetKind::FbOwned, proj, bg_depth: X(0.0), cfg: Cfg::plain(), shader_mode: 1, shared_verts: false, flip: [false, false] }
+    Scene { bw, bh, vp: [0, 0, bw, bh], tris: ts, attrs, door, target: TargetKind::FbOwned, proj, bg_depth: X(0.0), cfg: Cfg::plain(), shader_mode: 1, shared_verts: false, flip: [false, false], swap_axes: false, attr_mode: 0 }
 }
 
 pub fn case_strategy(max_dim: u32, n_hist: usize) -> BoxedStrategy<HsrCase> {
